@@ -1,5 +1,6 @@
 // C11: naive / Karatsuba / monomial multiplications and coefficient-wise operations are exact in Z_{2^32}[X]/(X^N+1)
 #include "vh.hpp"
+#include <pthread.h>
 #include <thread>
 #include <atomic>
 #include <sched.h>
@@ -281,6 +282,22 @@ int main(int argc, char **argv) {
     int maxN = args.i("maxN", 2048);
     int basisN = args.i("basisN", thorough ? 64 : 16);
     rng.reseed(seed * 1000003 + shard);
+    if (args.s("mode", "") == "smallstack") {
+        // the calling context has little stack left (a thread created with a small stack, a fiber, a deep caller): the products
+        // keep their scratch space on the heap, so a 32 KiB stack is plenty for every degree
+        size_t kib = (size_t) args.i("stack_kib", 32);
+        struct Ctx { int maxN; } ctx{maxN};
+        pthread_attr_t at; pthread_attr_init(&at); pthread_attr_setstacksize(&at, kib * 1024);
+        pthread_t th;
+        auto body = [](void *v) -> void * { Ctx *c = (Ctx *) v;
+            for (int N = 1; N <= c->maxN; N *= 2) { VH_OP("small-stack:products:N=%d", N); test_products(N, 1); test_linear(N, 2); if (N >= 8) test_weights(N, 6); test_monomials(N, false); }
+            return nullptr; };
+        if (pthread_create(&th, &at, body, &ctx)) { perror("pthread_create"); return 2; }
+        pthread_join(th, nullptr); pthread_attr_destroy(&at);
+        char cell[64]; snprintf(cell, sizeof cell, "small-stack:%zu-KiB-thread:all-degrees-up-to-%d", kib, maxN); out.cell(cell);
+        out.sample(J().s("mode", "smallstack").u("stack_kib", kib).i("maxN", maxN));
+        out.finish(); return 0;
+    }
     if (args.s("mode", "") == "shared") {
         for (int N: {8, 16, 64, 256, 1024}) test_shared(N, args.i("threads", 4), args.i("iters", 300) / (N >= 1024 ? 4 : 1));
         out.sample(J().s("mode", "shared").i("threads", args.i("threads", 4)).s("N", "8,16,64,256,1024"));
